@@ -685,6 +685,8 @@ def check(ctx):
     repo = ctx.repo
     check_declaration_order(ctx)
     check_descriptions_keep_the_field(ctx)
+    from ..model import check_no_class_level_accumulator
+    check_no_class_level_accumulator(ctx, 'R8-bits-run', ['Bits'], clause='a')
     ci = repo.cls('Bits')
     _find_run_masks(ci)
     for m in ('_compile', 'init', 'unpack', 'pack'):
